@@ -86,6 +86,7 @@ type syncNode struct {
 	cursor  uint64
 	steps   int
 	lastArt map[int]art
+	top     uint64 // downloader scenarios: how far the arts are reported
 }
 
 func newSyncNode(c *canon, key int, db dbm.DB, S uint64, out *tr.W, sid string) *syncNode {
